@@ -92,6 +92,11 @@ pub fn table() -> Vec<(&'static str, String, Want)> {
         ("pointer-sharing", with("type R struct {\n    value int32\n}\n", "    var r *R = &R{value: 1}\n    var s *R = r\n    s.value = 5\n    p(i2s(r.value))\n"), Want::Ok("5\n")),
         ("sprintf-d-with-a-float-prints-the-verb-error", m("    var f float64 = 1.5\n    p(fmt.Sprintf(\"%d\", f))\n"), Want::Ok("%!d(float64=1.5)\n")),
         ("sprintf-q-escapes", m("    p(fmt.Sprintf(\"%q\", \"a\\\"b\\n\"))\n"), Want::Ok("\"a\\\"b\\n\"\n")),
+        // --- append and slice expressions (spec: Appending to and copying slices; Slice expressions)
+        ("append-shares-spare-capacity", m("    var a []int32 = []int32{1, 2, 3}\n    var b []int32 = append(a, 4)\n    var c []int32 = append(b[:3], 5)\n    p(i2s(b[3]) + i2s(c[3]))\n"), Want::Ok("55\n")),
+        ("append-to-a-clipped-slice-copies", m("    var a []int32 = []int32{1, 2, 3}\n    var b []int32 = append(a, 4)\n    var c []int32 = append(b[:3:3], 5)\n    p(i2s(b[3]) + i2s(c[3]))\n"), Want::Ok("45\n")),
+        ("full-slice-expression-len-len", m("    var a []int32 = nil\n    var b []int32 = append(a[:len(a):len(a)], 1)\n    var c []int32 = append(b[:len(b):len(b)], 2)\n    var d []int32 = append(b[:len(b):len(b)], 3)\n    p(i2s(c[1]) + i2s(d[1]) + i2s(int32(len(d))))\n"), Want::Ok("232\n")),
+        ("slice-bounds-out-of-range-panics", m("    var a []int32 = []int32{1, 2}\n    var n int32 = 3\n    p(\"before\")\n    var b []int32 = a[:n]\n    _ = b\n"), Want::Panics("before\n")),
         ("break-outside-loop", m("    break\n"), Want::Reject("break")),
     ]
 }
